@@ -414,6 +414,9 @@ def as_seq(ex, st, v, for_iter=False, allow_filtered=False):
         c = v.conc()
         if c is not None:
             return [(st, VSeq([VStr(ch) for ch in c], kind='list'))]
+    if isinstance(v, VOpaque):
+        # iterating an unknown iterable: an unknown number of unknown elements
+        return [(st, ex.fresh(st, 'list[opaque]', 'iter'))]
     raise Unsupported('iteration over %r' % (v,))
 
 
